@@ -259,3 +259,33 @@ Proof. vm_compute. repeat split. eexists; split; reflexivity. Qed.
 Example ex_route_error_premises :
   exists n rt w, path_location ex_assets ex_waiting 1 = Some (0%nat, n) /\ n_router n = Some rt /\ rt_wait rt = Some w /\ accepts w RTimeout = true.
 Proof. vm_compute. do 3 eexists. repeat split. Qed.
+
+(* ---- C01 (review F5): a terminal enter followed by run_expiration; stores that differ between calls ---------- *)
+Definition ex_term_flow1 : flow :=
+  {| f_id := 1; f_type := 0;
+     f_nodes := [ {| n_id := 101; n_actions := [AEnterFlow 2 true]; n_router := None; n_exits := [{| e_id := 1011; e_dest := None |}] |} ] |}.
+Definition ex_term_assets : assets := {| a_flows := [ex_term_flow1; ex_flow2]; a_opts := ex_opts |}.
+
+Example ex_terminal_then_expiration : exists x1 x2,
+  start ex_term_assets TManual 1 = ROk x1 /\
+  map r_status (s_runs (session_ x1)) = [RCompleted; RWaiting] /\
+  resume_session ex_term_assets (session_ x1) RExpiration [] = Resumed (ROk x2) /\
+  s_status (session_ x2) = SCompleted /\ map r_status (s_runs (session_ x2)) = [RCompleted; RExpired] /\
+  map r_exited (s_runs (session_ x2)) = [true; true] /\ reachable (session_ x2).
+Proof.
+  assert (H1 : exists x1, start ex_term_assets TManual 1 = ROk x1) by (vm_compute; eexists; reflexivity).
+  destruct H1 as (x1 & H1).
+  assert (H2 : exists x2, resume_session ex_term_assets (session_ x1) RExpiration [] = Resumed (ROk x2)).
+  { revert H1. vm_compute. intros H1; inversion H1; subst. vm_compute. eexists; reflexivity. }
+  destruct H2 as (x2 & H2). exists x1, x2.
+  assert (R : reachable (session_ x2)) by (eapply reach_resume; [eapply reach_start; exact H1|exact H2]).
+  revert H1 H2 R. vm_compute. intros H1; inversion H1; subst. vm_compute. intros H2; inversion H2; subst. intros R.
+  repeat split; try reflexivity. exact R.
+Qed.
+
+(* [reachable] really is wider than [reachable_in]: the second call runs against another store *)
+Example ex_reachable_across_stores : exists x', resume_session ex_assets_no_child ex_waiting (RMsg [97]) [] = Resumed (ROk x') /\ reachable (session_ x').
+Proof.
+  assert (H : exists x', resume_session ex_assets_no_child ex_waiting (RMsg [97]) [] = Resumed (ROk x')) by (vm_compute; eexists; reflexivity).
+  destruct H as (x' & H). exists x'. split; [exact H|]. eapply reach_resume; [apply ex_reachable_waiting|exact H].
+Qed.
